@@ -447,7 +447,33 @@ def distribution_rules(repo, rep, prefix):
       if key_ in seen_b:
         continue
       seen_b.add(key_)
-      rep.check(nonneg(ctx, snode, sbase), prefix + 'R4/scale-sign', 'the scale passed to scipy.stats.t is non-negative for every rescale factor', f.qualname,
+      proved_ = nonneg(ctx, snode, sbase)
+      if not proved_:
+        # not proved non-negative: a recognised defect only when the rescale factor enters the scale with its sign (outside
+        # abs / an even power); a scale assembled in a way the sign analysis does not follow (in-place *=, a cached
+        # tuple, a helper) is not decided
+        sx_ = rd.expand(snode, sbase, keep=('rescale',), depth=12)[0]
+        par_ = {}
+        for x_ in ast.walk(sx_):
+          for ch_ in ast.iter_child_nodes(x_):
+            par_[id(ch_)] = x_
+        signed_ = False
+        for x_ in ast.walk(sx_):
+          if isinstance(x_, ast.Name) and x_.id == 'rescale':
+            cur_, under_abs = x_, False
+            while id(cur_) in par_:
+              p_ = par_[id(cur_)]
+              if isinstance(p_, ast.Call) and norm(p_.func) in ('abs', 'np.abs', 'np.absolute', 'np.fabs', 'math.fabs', 'numpy.abs'):
+                under_abs = True
+              if isinstance(p_, ast.BinOp) and isinstance(p_.op, ast.Pow) and au.const(p_.right)[0] and isinstance(au.const(p_.right)[1], int) and au.const(p_.right)[1] % 2 == 0:
+                under_abs = True
+              cur_ = p_
+            if not under_abs:
+              signed_ = True
+        if not signed_:
+          rep.undecided(prefix + 'R4/scale-sign', 'scale=%s' % norm(sx_)[:80], 'the scale is assembled in a form whose sign is not followed (no signed use of rescale is visible)', f.loc(call))
+          continue
+      rep.check(proved_, prefix + 'R4/scale-sign', 'the scale passed to scipy.stats.t is non-negative for every rescale factor', f.qualname,
                 'scale=%s' % norm(rd.expand(snode, sbase, keep=('rescale',))[0])[:120],
                 'the scale of the posterior `%s` can be negative (e.g. rescale < 0): scipy then returns NaN for every quantile and probability'
                 % norm(rd.expand(snode, sbase, keep=('rescale',))[0])[:100], f.loc(call))
@@ -500,7 +526,9 @@ def distribution_rules(repo, rep, prefix):
   else:
     ox = core(rd.expand(o[0], o[0].ast.value, keep=('len_test',))[0])
     o_txt = norm(ox)
-    v_, al_ = au.verdict_text(o_txt in ('np.arange(1, len_test + 1)', 'np.arange(1, 1 + len_test)', 'np.arange(len_test) + 1', '1 + np.arange(len_test)'), ox, DVOC)
+    o_txt = re.sub(r', dtype=(float|np\.float64|int|np\.int64)\)', ')', o_txt)          # the element type does not change which days are counted
+    v_, al_ = au.verdict_text(o_txt in ('np.arange(1, len_test + 1)', 'np.arange(1, 1 + len_test)', 'np.arange(len_test) + 1', '1 + np.arange(len_test)',
+                                        'np.arange(1.0, len_test + 1)', 'np.arange(1.0, len_test + 1.0)'), ox, DVOC)
     rep.check3(v_, prefix + 'R5/posterior-shape', 't runs over 1..T', f.qualname,
                norm(o[0].ast)[:80], 'the day counter is `%s`, not 1..T' % norm(o[0].ast.value), f.loc(),
                why_open='the day counter `%s` reads unresolved names (%s)' % (o_txt[:60], ', '.join(al_)))
